@@ -103,6 +103,10 @@ def main(argv):
                 env["MSCRIPT_REPO"] = scratch_repo
                 props = [h["property"] or pid]
                 out = ""
+                try:
+                    os.remove(os.path.join(SCRATCH, "evidence", props[0] + ".json"))
+                except OSError:
+                    pass
                 for prop in props:
                     rr = sh([sys.executable, os.path.join(HERE, "runner.py"), prop, "--tier", "quick"], env=env)
                     out += rr.stdout + rr.stderr
